@@ -389,6 +389,90 @@ pub fn responder_of(p: Proto) -> Responder {
 }
 
 // ---------------------------------------------------------------------------------------
+// part 2b: over TCP the payload is the flow's byte stream: what follows the leading bytes (a
+// second request, another protocol's signature at the start of a later segment) never moves
+// the flow to another responder
+
+#[derive(Clone, Debug, Serialize, Deserialize, PartialEq)]
+pub struct Sticky {
+    pub scn: Scenario,
+    pub sport: u16,
+    pub dport: u16,
+    pub first: AppReq,
+    pub later: Vec<AppReq>,
+}
+
+pub fn sticky_strategy() -> impl Strategy<Value = Sticky> {
+    (scenario_quiet(Fam::Any), port(), port(), app_req(), vec(app_req(), 1..=3)).prop_map(|(scn, sport, dport, first, later)| Sticky { scn, sport, dport, first, later })
+}
+
+pub fn sticky_check(c: &Sticky, st: &mut Stats) -> Check {
+    Sut::reset();
+    st.eval();
+    let sut = Sut::new(&c.scn.cfg);
+    let first = c.first.bytes(true);
+    match divergence(&first, false) {
+        Divergence::None => {}
+        Divergence::Known(k) => {
+            st.exclude(k);
+            return Ok(());
+        }
+        Divergence::Unlisted(m) => vfail!("payload {}: {}", hex(&first[..first.len().min(80)]), m),
+    }
+    let r = ref_identify(&first, false);
+    if r.protos.is_empty() {
+        st.class("sticky:first-request-completes-no-signature");
+        return Ok(());
+    }
+    let allowed: Vec<Responder> = r.protos.iter().map(|p| responder_of(*p)).collect();
+    let mut stream = first.clone();
+    let mut lens = vec![first.len()];
+    for l in &c.later {
+        let b = l.bytes(true);
+        lens.push(b.len());
+        stream.extend_from_slice(&b);
+    }
+    let flow = Flow { net: c.scn.net.clone(), sport: c.sport, dport: c.dport };
+    st.frames(1 + lens.len() as u64);
+    let replies = deliver(&sut, &flow, 11, &stream, &lens).map_err(Failure::new)?;
+    let mut off = 0usize;
+    for (i, rp) in replies.iter().enumerate() {
+        let seg = &stream[off..off + lens[i]];
+        off += lens[i];
+        match rp {
+            SegReply::Data(p) => {
+                let who = classify_reply(p, true);
+                st.class(&format!("sticky:segment{}:{:?}-flow:answered-by-{:?}", i.min(2), allowed[0], who));
+                if i > 0 {
+                    st.nontrivial_hash(fnv(&stream) ^ i as u64);
+                }
+                if who != Responder::Unknown && !allowed.contains(&who) {
+                    vfail!(
+                        "segment #{} of a flow whose leading bytes complete {:?} was answered by {:?}: stream starts {} ; segment {} -> {}",
+                        i,
+                        r.names,
+                        who,
+                        hex(&first[..first.len().min(40)]),
+                        hex(&seg[..seg.len().min(60)]),
+                        hex(&p[..p.len().min(60)])
+                    );
+                }
+            }
+            SegReply::Ack | SegReply::Silence => {
+                st.class(&format!("sticky:segment{}:{:?}-flow:not-answered", i.min(2), allowed[0]));
+            }
+            SegReply::Other(o) => {
+                if o.starts_with("panic") {
+                    return Err(Failure::keyed("panic", format!("segment #{}: {}", i, o)));
+                }
+            }
+        }
+    }
+    st.sample(|| json!({"first": c.first.kind(), "later": c.later.iter().map(|l| l.kind()).collect::<Vec<_>>(), "replies": replies.iter().map(|r| match r { SegReply::Data(p) => format!("{:?}", classify_reply(p, true)), o => format!("{:?}", o) }).collect::<Vec<_>>()}));
+    Ok(())
+}
+
+// ---------------------------------------------------------------------------------------
 // part 3: the decision is independent of the segmentation of the prefix, ports and addresses
 
 #[derive(Clone, Debug, Serialize, Deserialize, PartialEq)]
@@ -487,7 +571,7 @@ impl Prop for C10 {
         "C10"
     }
     fn rule(&self) -> &'static str {
-        "(1) exhaustive breadth-first exploration of the product of the reference signature automaton (17 published signatures transcribed as data: literals, ? wildcards, begin/end anchors) with the compiled matcher stepped one byte at a time through the hook, over ALL 256 byte values per step plus the end-of-input step at every product state; product state = (position, alive signature set, matcher row | pending matches, shadowing-excuse mask); oracle: the matcher reports a protocol exactly where a signature first completes (ties accept either). (2) end-to-end through reply(): complete valid requests from every protocol generator and payloads whose leading bytes complete no signature (constructed by walking the reference automaton), over UDP and over a handshaken TCP flow on random ports/addresses; the responder (classified by independent decoders) must be the completed signature's, or nobody (DNS fallback allowed for datagrams). (3) for witness prefixes (every signature with random wildcard bytes, perturbed, extended) ALL 1- and 2-cut TCP segmentations and another port/address pair: the protocol id recorded in the control block equals the unsplit delivery's. Non-trivial = product states with a non-empty alive set / witnesses answered or rejected / prefixes that complete a signature; distinct by hash."
+        "(1) exhaustive breadth-first exploration of the product of the reference signature automaton (17 published signatures transcribed as data: literals, ? wildcards, begin/end anchors) with the compiled matcher stepped one byte at a time through the hook, over ALL 256 byte values per step plus the end-of-input step at every product state; product state = (position, alive signature set, matcher row | pending matches, shadowing-excuse mask); oracle: the matcher reports a protocol exactly where a signature first completes (ties accept either). (2) end-to-end through reply(): complete valid requests from every protocol generator and payloads whose leading bytes complete no signature (constructed by walking the reference automaton), over UDP and over a handshaken TCP flow on random ports/addresses; the responder (classified by independent decoders) must be the completed signature's, or nobody (DNS fallback allowed for datagrams). (2b) over a handshaken TCP flow a complete request of one protocol followed, in later segments, by 1..3 complete requests of arbitrary other protocols: no segment of the flow is answered by a responder other than the one the stream's leading bytes selected. (3) for witness prefixes (every signature with random wildcard bytes, perturbed, extended) ALL 1- and 2-cut TCP segmentations and another port/address pair: the protocol id recorded in the control block equals the unsplit delivery's. Non-trivial = product states with a non-empty alive set / witnesses answered or rejected / prefixes that complete a signature; distinct by hash."
     }
     fn run(&self, ctx: &mut RunCtx) {
         if ctx.worker == 0 {
@@ -522,6 +606,8 @@ impl Prop for C10 {
         }
         let n = ctx.share(ctx.tier.n(400_000, 6_000_000));
         ctx.run_generated("e2e", n, e2e_strategy(), e2e_check);
+        let k = ctx.share(ctx.tier.n(150_000, 2_000_000));
+        ctx.run_generated("sticky", k, sticky_strategy(), sticky_check);
         let m = ctx.share(ctx.tier.n(4_000, 60_000));
         ctx.run_generated("seg", m, (scenario_quiet(Fam::Any), port(), port(), prefix_strategy()).prop_map(|(scn, sport, dport, prefix)| SegCase { scn, sport, dport, prefix }), seg_check);
     }
@@ -539,6 +625,7 @@ impl Prop for C10 {
                 }
             }
             "seg" => seg_check(&serde_json::from_value(case.clone()).map_err(bad)?, st),
+            "sticky" => sticky_check(&serde_json::from_value(case.clone()).map_err(bad)?, st),
             _ => e2e_check(&serde_json::from_value(case.clone()).map_err(bad)?, st),
         }
     }
